@@ -74,8 +74,26 @@ def cvrp_instance(rng, n: int):
             "demand": [rng.randint(1, max(1, C // 2)) for _ in range(n)]}
 
 
+def op_instance(rng, n: int):
+    """orienteering: integral-distance points (node 0 = depot), prizes k/16, a length budget of (L + 1/2) grid units
+    (never hit with equality) chosen per instance so that some customers may be out of reach from the depot"""
+    pts = geom.gen_points(rng, n + 1)
+    D = geom.dist_matrix(pts)
+    d0 = sorted(D[0][1:])
+    lo, hi = 2 * d0[0], 2 * d0[-1] + max(1, d0[-1])
+    L = rng.randint(lo, max(lo, hi))
+    return {"kind": 2, "pts": pts, "prize": [rng.randint(1, 16) for _ in range(n)], "L": L}
+
+
 def to_td(insts) -> TensorDict:
     B = len(insts)
+    if insts[0]["kind"] == 2:
+        return TensorDict({
+            "locs": torch.tensor([geom.to_unit(i["pts"][1:]) for i in insts], dtype=torch.float32),
+            "depot": torch.tensor([geom.to_unit(i["pts"][:1])[0] for i in insts], dtype=torch.float32),
+            "prize": torch.tensor([[p / 16 for p in i["prize"]] for i in insts], dtype=torch.float32),
+            "max_length": torch.tensor([(i["L"] + 0.5) / GRID for i in insts], dtype=torch.float32),
+        }, batch_size=[B])
     if insts[0]["kind"] == 0:
         return TensorDict({"locs": torch.tensor([geom.to_unit(i["pts"]) for i in insts], dtype=torch.float32)}, batch_size=[B])
     return TensorDict({
@@ -86,8 +104,13 @@ def to_td(insts) -> TensorDict:
 
 
 def D_flat(inst) -> str:
+    """the instance section of the driver protocol: distance matrix, for OP followed by the node prizes and the budget"""
     D = geom.D_ticks(inst["pts"])
-    return " ".join(str(v) for row in D for v in row)
+    out = " ".join(str(v) for row in D for v in row)
+    if inst["kind"] == 2:
+        out += " 0 " + " ".join(str(p * (rl.SCALE // 16)) for p in inst["prize"])
+        out += f" {(2 * inst['L'] + 1) * (geom.TICKS_PER_GRID // 2)}"
+    return out
 
 
 def cost_line(inst, actions) -> str:
